@@ -353,9 +353,22 @@ def e2eOracle (dim : Nat) (sizeScale vrel : Rat) (o : ROpts) (out : List String)
         else s!"fail none-but-distance-below-target d={q d}"
   | "some" :: rest =>
     match run (do let toi ← pfo; let st ← pnat; let dt ← pfo; let ds ← pfl 12
-                  let _ ← pfl (4 * dim); let _ ← tok; let d0 ← pfo; pure (toi, st, dt, ds, d0)) rest with
+                  let geo ← pfl (4 * dim); let _ ← tok; let d0 ← pfo; pure (toi, st, dt, ds, d0, geo)) rest with
     | none => "fail unparsable-output"
-    | some (toi, st, dt, ds, d0) =>
+    | some (toi, st, dt, ds, d0, geo) =>
+      -- world-space witnesses and normals at the time of impact
+      let gv (i : Nat) : V3 Rat :=
+        let c (j : Nat) : Rat := q ((geo.drop (i * dim + j)).headD 0.0)
+        if dim = 3 then ⟨c 0, c 1, c 2⟩ else ⟨c 0, c 1, 0⟩
+      let W1 := gv 0; let W2 := gv 1; let N1 := gv 2; let N2 := gv 3
+      let geoVerdict : String :=
+        if geo.any bad then "fail nonfinite-witness-or-normal" else
+        let gtol := tol5 * sizeScale * 10
+        if rabs (N1.normSq - 1) > tol5 ∨ rabs (N2.normSq - 1) > tol5 then "fail normal-not-unit" else
+        if !vnear N1 N2.neg (tol5 * 10) then "fail normals-not-opposite" else
+        -- the witnesses are `target` apart, along normal1
+        let D := W2.sub W1
+        if !vnear D (N1.smul o.target) gtol then s!"fail witnesses-not-target-apart-along-normal |gap|²={D.normSq}" else "pass"
       if bad toi then "fail nonfinite-toi" else
       if bad dt ∨ ds.any bad ∨ bad d0 then "skip distance-unsupported" else
       let T := q toi
@@ -372,7 +385,7 @@ def e2eOracle (dim : Nat) (sizeScale vrel : Rat) (o : ROpts) (out : List String)
         if q dt < o.target - tlT then s!"fail already-closer-than-target-at-toi d={q dt}" else
         match ds.filter (fun d => q d < o.target - tlT) with
         | d :: _ => s!"fail earlier-contact d={q d}"
-        | [] => "pass"
+        | [] => geoVerdict
   | _ => "fail unparsable-output"
 
 /-- nonlinear(ω = 0) vs linear, from the same output line -/
